@@ -32,6 +32,7 @@ type G struct {
 	sendClosed bool
 	what       string
 	isMain     bool
+	nlocks     int // mutexes (read or write) held, for the isolation monitor
 }
 
 type waiter struct {
@@ -532,11 +533,13 @@ func (s *Sched) lock(g *G, p *value, read bool) {
 				ms.readersBy = map[*G]int{}
 			}
 			ms.readersBy[g]++
+			g.nlocks++
 			return
 		}
 		if !read && !ms.locked && ms.readers == 0 {
 			ms.locked = true
 			ms.owner = g
+			g.nlocks++
 			return
 		}
 		ms.waitq = append(ms.waitq, g)
@@ -547,6 +550,9 @@ func (s *Sched) lock(g *G, p *value, read bool) {
 func (s *Sched) unlock(g *G, p *value, read bool) {
 	s.visible(g)
 	ms := s.mutex(p)
+	if g.nlocks > 0 {
+		g.nlocks--
+	}
 	if read {
 		if ms.readers == 0 {
 			panic(targetPanic{v: rtErr("sync: RUnlock of unlocked RWMutex")})
